@@ -1,6 +1,376 @@
-//! C05 — not implemented yet.
+//! C05 — quaternions form the Hamilton algebra and rotate vectors like their matrix.
+
+use num_traits::{One, Zero};
+use vek::mat::repr_c::column_major as cm;
+use vek::mat::repr_c::row_major as rm;
+use vek::quaternion::repr_c::Quaternion;
+use vek::vec::repr_c::{Vec3, Vec4};
+use vkit::gens;
+use vkit::refmath as rf;
+use vkit::vk::{self, MatN};
 use vkit::*;
 
+const K: f64 = 512.0;
+
+fn qa<S: Copy>(q: Quaternion<S>) -> [S; 4] {
+    [q.w, q.x, q.y, q.z]
+}
+fn aq<S: Copy>(a: &[S; 4]) -> Quaternion<S> {
+    Quaternion { w: a[0], x: a[1], y: a[2], z: a[3] }
+}
+fn conj<S: Dom>(a: &[S; 4]) -> [S; 4] {
+    [a[0], -a[1], -a[2], -a[3]]
+}
+fn norm2<S: Dom>(a: &[S; 4]) -> S {
+    a[0] * a[0] + a[1] * a[1] + a[2] * a[2] + a[3] * a[3]
+}
+fn gen_q<S: Dom>(t: &mut Tape) -> [S; 4] {
+    [S::any(t, 9), S::any(t, 9), S::any(t, 9), S::any(t, 9)]
+}
+fn qmax<S: Dom>(a: &[S; 4]) -> f64 {
+    a.iter().fold(1.0f64, |m, x| m.max(x.f().abs()))
+}
+/// v rotated by unit quaternion q, from the definition q (0,v) q* with the reference Hamilton product.
+fn rotate_ref<S: Dom>(q: &[S; 4], v: &[S; 3]) -> [S; 3] {
+    let p = [S::zero(), v[0], v[1], v[2]];
+    let r = rf::hamilton(&rf::hamilton(q, &p), &conj(q));
+    [r[1], r[2], r[3]]
+}
+/// Rational point of the unit 3-sphere (w, x, y, z) by inverse stereographic projection.
+fn unit_q<S: Dom>(t: &mut Tape) -> [S; 4] {
+    let a = S::small(t, 6);
+    let b = S::small(t, 6);
+    let c = S::small(t, 6);
+    let n = a * a + b * b + c * c;
+    let d = S::one() + n;
+    let two = S::i(2);
+    let q = [(S::one() - n) / d, two * a / d, two * b / d, two * c / d];
+    // vary which component plays the role of w
+    let r = t.below(4);
+    let mut out = q;
+    for i in 0..4 {
+        out[i] = q[(i + r) % 4];
+    }
+    if t.bool() {
+        for x in out.iter_mut() {
+            *x = -*x;
+        }
+    }
+    out
+}
+
+fn algebra<S: Dom>(t: &mut Tape, cx: &mut Cx) -> CaseResult {
+    let (p, q, r) = (gen_q::<S>(t), gen_q::<S>(t), gen_q::<S>(t));
+    let s = S::any(t, 9);
+    cx.set_nontrivial(p.iter().all(|x| !x.is_zero()) && q.iter().all(|x| !x.is_zero()) && rf::hamilton(&p, &q) != rf::hamilton(&q, &p));
+    sample!(cx, "{} p={:?} q={:?} r={:?} (w,x,y,z) s={:?}", S::NAME, p, q, r, s);
+    let (vp, vq, vr) = (aq(&p), aq(&q), aq(&r));
+    let sc = qmax(&p) * qmax(&q) * 4.0;
+    check_vec!(cx, S, qa(vp * vq), rf::hamilton(&p, &q), sc, K, "p*q vs Hamilton table");
+    check_vec!(cx, S, qa(vq * vp), rf::hamilton(&q, &p), sc, K, "q*p vs Hamilton table");
+    let id = Quaternion::<S>::identity();
+    check_eq!(cx, qa(id), [S::one(), S::zero(), S::zero(), S::zero()], "identity()");
+    check_eq!(cx, qa(<Quaternion<S> as Default>::default()), qa(id), "Default is the identity");
+    check_eq!(cx, qa(Quaternion::<S>::zero()), [S::zero(); 4], "zero()");
+    check_eq!(cx, qa(vp * id), p, "p * 1 = p");
+    check_eq!(cx, qa(id * vp), p, "1 * p = p");
+    let sc3 = sc * qmax(&r) * 4.0;
+    check_vec!(cx, S, qa((vp * vq) * vr), qa(vp * (vq * vr)), sc3, K, "(pq)r = p(qr)");
+    check_vec!(cx, S, qa((vp * vq) * vr), rf::hamilton(&rf::hamilton(&p, &q), &r), sc3, K, "(pq)r vs reference");
+    check_close!(cx, S, norm2(&qa(vp * vq)), norm2(&p) * norm2(&q), sc * sc, K, "|pq|^2 = |p|^2 |q|^2");
+    check_eq!(cx, qa(vp.conjugate()), conj(&p), "conjugate");
+    check_vec!(cx, S, qa((vp * vq).conjugate()), qa(vq.conjugate() * vp.conjugate()), sc, K, "conj(pq) = conj(q) conj(p)");
+    check_eq!(cx, qa(vp + vq), [p[0] + q[0], p[1] + q[1], p[2] + q[2], p[3] + q[3]], "p + q");
+    check_eq!(cx, qa(vp - vq), [p[0] - q[0], p[1] - q[1], p[2] - q[2], p[3] - q[3]], "p - q");
+    check_eq!(cx, qa(-vp), [-p[0], -p[1], -p[2], -p[3]], "-p");
+    check_eq!(cx, qa(vp * s), [p[0] * s, p[1] * s, p[2] * s, p[3] * s], "p * s");
+    check_close!(cx, S, vp.dot(vq), rf::dot(&p, &q), sc, K, "dot");
+    if !s.is_zero() {
+        check_eq!(cx, qa(vp / s), [p[0] / s, p[1] / s, p[2] / s, p[3] / s], "p / s");
+    }
+    if !norm2(&q).is_zero() && (S::EXACT || norm2(&q).f() > 1e-3) {
+        let inv = vq.inverse();
+        let one = [S::one(), S::zero(), S::zero(), S::zero()];
+        let n = norm2(&q);
+        let want_inv = { let c = conj(&q); [c[0] / n, c[1] / n, c[2] / n, c[3] / n] };
+        let isc = qmax(&q) / n.f();
+        check_vec!(cx, S, qa(inv), want_inv, isc, K, "inverse = conjugate / |q|^2");
+        check_vec!(cx, S, qa(vq * inv), one, (qmax(&q) * isc).max(1.0) * 4.0, K, "q * q^-1 = 1");
+        check_vec!(cx, S, qa(inv * vq), one, (qmax(&q) * isc).max(1.0) * 4.0, K, "q^-1 * q = 1");
+        check_close!(cx, S, vq.magnitude_squared(), n, sc, K, "magnitude_squared");
+    }
+    if !S::EXACT && norm2(&q).f() > 1e-3 {
+        let m = norm2(&q).f().sqrt();
+        check_close!(cx, S, vq.magnitude(), <S as num_traits::NumCast>::from(m).unwrap(), m, K, "magnitude");
+        let nq = qa(vq.normalized());
+        check_close!(cx, S, norm2(&nq), S::one(), 1.0, K, "normalized is unit");
+        for i in 0..4 {
+            check_close!(cx, S, nq[i] * <S as num_traits::NumCast>::from(m).unwrap(), q[i], qmax(&q), K, "normalized is parallel (component {})", i);
+        }
+    }
+    Ok(())
+}
+
+fn action<S: Dom>(t: &mut Tape, cx: &mut Cx) -> CaseResult {
+    let p = unit_q::<S>(t);
+    let q = unit_q::<S>(t);
+    let v: [S; 3] = vk::gen_vec(t, 9);
+    let w = S::any(t, 9);
+    cx.set_nontrivial(p.iter().all(|x| !x.is_zero()) && q.iter().all(|x| !x.is_zero()) && v.iter().all(|x| !x.is_zero()));
+    sample!(cx, "{} unit p={:?} q={:?} (w,x,y,z) v={:?} w={:?}", S::NAME, p, q, v, w);
+    let (vp, vq) = (aq(&p), aq(&q));
+    let vm = vk::vec_max(&v).max(1.0) * 4.0;
+    let want = rotate_ref(&q, &v);
+    check_vec!(cx, S, vk::a3(&(vq * vk::v3(&v))), want, vm, K, "q * Vec3 = q v q*");
+    // same as the matrices converted from it (both layouts, 3x3 and 4x4, as a direction and as a point)
+    check_vec!(cx, S, rf::matvec(&cm::Mat3::<S>::from(vq).to_arr(), &v), want, vm, K, "col Mat3::from(q) * v");
+    check_vec!(cx, S, rf::matvec(&rm::Mat3::<S>::from(vq).to_arr(), &v), want, vm, K, "row Mat3::from(q) * v");
+    let m4 = cm::Mat4::<S>::from(vq).to_arr();
+    let m4r = rm::Mat4::<S>::from(vq).to_arr();
+    check_eq!(cx, m4, m4r, "Mat4::from(q) is the same abstract matrix in both layouts");
+    let v4 = [v[0], v[1], v[2], w];
+    let r4 = rf::matvec(&m4, &[v[0], v[1], v[2], S::zero()]);
+    check_vec!(cx, S, [r4[0], r4[1], r4[2]], want, vm, K, "Mat4::from(q) on the direction");
+    check_eq!(cx, r4[3], S::zero(), "Mat4::from(q) keeps w = 0");
+    check_eq!(cx, (m4[3], m4[0][3], m4[1][3], m4[2][3]), ([S::zero(), S::zero(), S::zero(), S::one()], S::zero(), S::zero(), S::zero()), "Mat4::from(q) is an embedding");
+    // the matrix is a proper rotation
+    let m3 = cm::Mat3::<S>::from(vq).to_arr();
+    check_mat!(cx, S, rf::matmul(&rf::transpose(&m3), &m3), rf::identity::<S, 3>(), 1.0, K, "Mat3::from(unit q) orthogonal");
+    check_close!(cx, S, rf::det(&m3), S::one(), 1.0, K, "det Mat3::from(unit q) = 1");
+    // Vec4: xyz rotated, w untouched (bit-identical)
+    let r = vq * vk::v4(&v4);
+    check_vec!(cx, S, [r.x, r.y, r.z], want, vm, K, "q * Vec4 rotates xyz");
+    check!(cx, r.w == w && r.w.f().to_bits() == w.f().to_bits(), "q * Vec4 must leave w untouched: got {:?}, want {:?}", r.w, w);
+    // composition
+    check_vec!(cx, S, vk::a3(&((vp * vq) * vk::v3(&v))), vk::a3(&(vp * (vq * vk::v3(&v)))), vm, K, "(p*q)*v = p*(q*v)");
+    check_vec!(cx, S, vk::a3(&((vp * vq) * vk::v3(&v))), rotate_ref(&p, &rotate_ref(&q, &v)), vm, K, "(p*q)*v vs reference");
+    // inverse rotation undoes
+    check_vec!(cx, S, vk::a3(&(vq.conjugate() * (vq * vk::v3(&v)))), v, vm, K, "conj(q)*(q*v) = v");
+    Ok(())
+}
+
+/// Direction pairs. Returns (from, to, class).
+fn gen_pair<S: Dom>(t: &mut Tape, cx: &mut Cx) -> ([S; 3], [S; 3]) {
+    let sel = t.below(8);
+    // vectors whose relevant partial sums of squares are all perfect squares, per 180-degree sub-branch
+    const ANTI: [[i64; 3]; 12] = [
+        [9, 12, 8],  // |x| > |z|, x^2+y^2 = 15^2, total 17^2
+        [12, 9, 8],
+        [3, 4, 0],   // |x| > |z| = 0
+        [5, 0, 0],   // axis-aligned x
+        [8, 9, 12],  // |x| <= |z|, y^2+z^2 = 15^2
+        [8, 12, 9],  // |x| <= |z|
+        [0, 3, 4],   // x = 0
+        [0, 5, 0],   // axis-aligned y, |x| = |z| = 0
+        [0, 0, 7],   // axis-aligned z
+        [-9, 12, -8],
+        [-8, -9, 12],
+        [4, 3, 0],
+    ];
+    // exact domains: any positive rational factor; floats: powers of two, so that scaled copies stay *exactly* (anti)parallel
+    let lam = |t: &mut Tape| if S::EXACT { S::q(t.int(1, 9), t.pick(&[1i64, 1, 2, 3, 7])) } else { let e = t.int(-6, 6); if e >= 0 { S::i(1 << e) } else { S::q(1, 1 << -e) } };
+    match sel {
+        0 | 1 | 2 => {
+            // exactly antiparallel
+            cx.label("antiparallel");
+            let f = ANTI[t.below(ANTI.len())];
+            if f[0].abs() > f[2].abs() { cx.label("antiparallel:|x|>|z|") } else if f[0].abs() < f[2].abs() { cx.label("antiparallel:|x|<|z|") } else { cx.label("antiparallel:|x|=|z|") }
+            let (a, b) = (lam(t), lam(t));
+            let from = [S::i(f[0]) * a, S::i(f[1]) * a, S::i(f[2]) * a];
+            let to = [-S::i(f[0]) * b, -S::i(f[1]) * b, -S::i(f[2]) * b];
+            (from, to)
+        }
+        3 => {
+            cx.label("parallel");
+            let (f, _) = gens::pythagorean3(t);
+            let (a, b) = (lam(t), lam(t));
+            ([S::i(f[0]) * a, S::i(f[1]) * a, S::i(f[2]) * a], [S::i(f[0]) * b, S::i(f[1]) * b, S::i(f[2]) * b])
+        }
+        _ => {
+            if S::EXACT || t.bool() {
+                // from = L * R e_x, to = mu * R (cos th, sin th, 0): every radical in the computation is rational
+                cx.label("generic-constructed");
+                let r = gens::rotation3::<S>(t);
+                let th = S::angle(t);
+                let (s, c) = (th.sin(), th.cos());
+                let (l, mu) = (lam(t), lam(t));
+                let from = rf::scale(&rf::matvec(&r, &[S::one(), S::zero(), S::zero()]), l);
+                let to = rf::scale(&rf::matvec(&r, &[c, s, S::zero()]), mu);
+                (from, to)
+            } else {
+                cx.label("generic-random");
+                let mut f: [S; 3] = vk::gen_vec(t, 9);
+                let mut g: [S; 3] = vk::gen_vec(t, 9);
+                if rf::dot(&f, &f).f() < 1e-2 { f = [S::i(1), S::i(2), S::i(-3)]; }
+                if rf::dot(&g, &g).f() < 1e-2 { g = [S::i(2), S::i(-1), S::i(1)]; }
+                if t.chance(32) {
+                    // nearly antiparallel
+                    cx.label("nearly-antiparallel");
+                    let e = <S as num_traits::NumCast>::from(1e-3).unwrap();
+                    g = [-f[0] + e, -f[1], -f[2] + e];
+                }
+                (f, g)
+            }
+        }
+    }
+}
+
+fn from_to<S: Dom>(t: &mut Tape, cx: &mut Cx) -> CaseResult {
+    let (from, to) = gen_pair::<S>(t, cx);
+    let (fl, tl) = (rf::dot(&from, &from).f().sqrt(), rf::dot(&to, &to).f().sqrt());
+    sample!(cx, "{} from={:?} to={:?}", S::NAME, from, to);
+    cx.set_nontrivial(from.iter().filter(|x| !x.is_zero()).count() >= 2);
+    let q = Quaternion::<S>::rotation_from_to_3d(vk::v3(&from), vk::v3(&to));
+    let a = qa(q);
+    check_close!(cx, S, norm2(&a), S::one(), 1.0, K, "rotation_from_to_3d returns a unit quaternion");
+    let img = rotate_ref(&a, &from);
+    // image of `from` is a positive multiple of `to`: cross = 0 and dot > 0
+    let cr = rf::cross(&img, &to);
+    let sc = (fl * tl).max(1.0) * 4.0;
+    // float conditioning: the nearly antiparallel class amplifies rounding by 1/|from+to|; widen there
+    let k = if S::EXACT {
+        1.0
+    } else {
+        let u: Vec<f64> = (0..3).map(|i| from[i].f() / fl + to[i].f() / tl).collect();
+        let un = (u[0] * u[0] + u[1] * u[1] + u[2] * u[2]).sqrt();
+        let exactly_opposite = (0..3).all(|i| from[i].f() * tl == -to[i].f() * fl) || (0..3).all(|i| (from[i].f() / from.iter().map(|x| x.f().abs()).fold(0.0, f64::max)) == -(to[i].f() / to.iter().map(|x| x.f().abs()).fold(0.0, f64::max)));
+        if !exactly_opposite && un < 1e-3 {
+            discard!("precondition:opposite-within-1e-3-but-not-exactly (ill-conditioned in floats)");
+        }
+        let cond = if exactly_opposite { 1.0 } else { (2.0 / un).max(1.0) };
+        (K * cond * cond).min(1e12)
+    };
+    check_vec!(cx, S, cr, [S::zero(); 3], sc, k, "q*from is parallel to `to` (cross product)");
+    check!(cx, rf::dot(&img, &to) > S::zero(), "q*from points the same way as `to`: dot = {:?} (q={:?}, q*from={:?})", rf::dot(&img, &to), a, img);
+    // vek's own application agrees
+    check_vec!(cx, S, vk::a3(&(q * vk::v3(&from))), img, fl.max(1.0) * 4.0, K, "q * from (vek) = reference");
+    // matrix flavours are the matrix of that quaternion
+    let m3 = cm::Mat3::<S>::from(q).to_arr();
+    check_mat!(cx, S, cm::Mat3::<S>::rotation_from_to_3d(vk::v3(&from), vk::v3(&to)).to_arr(), m3, 1.0, K, "col Mat3::rotation_from_to_3d");
+    check_mat!(cx, S, rm::Mat3::<S>::rotation_from_to_3d(vk::v3(&from), vk::v3(&to)).to_arr(), m3, 1.0, K, "row Mat3::rotation_from_to_3d");
+    let m4 = cm::Mat4::<S>::from(q).to_arr();
+    check_mat!(cx, S, cm::Mat4::<S>::rotation_from_to_3d(vk::v3(&from), vk::v3(&to)).to_arr(), m4, 1.0, K, "col Mat4::rotation_from_to_3d");
+    check_mat!(cx, S, rm::Mat4::<S>::rotation_from_to_3d(vk::v3(&from), vk::v3(&to)).to_arr(), m4, 1.0, K, "row Mat4::rotation_from_to_3d");
+    // the matrix maps from onto to as well
+    let mi = rf::matvec(&m3, &from);
+    check_vec!(cx, S, rf::cross(&mi, &to), [S::zero(); 3], sc, k, "matrix * from parallel to `to`");
+    check!(cx, rf::dot(&mi, &to) > S::zero(), "matrix * from points the same way as `to`");
+    Ok(())
+}
+
+/// Angle-axis extraction (floats): returns an angle and unit axis describing the same rotation.
+fn angle_axis<S: Dom>(t: &mut Tape, cx: &mut Cx) -> CaseResult {
+    let sel = t.below(10);
+    let pi = std::f64::consts::PI;
+    let angle_f = match sel {
+        0 => 0.0,
+        1 => t.pick(&[pi / 2.0, -pi / 2.0, pi, -pi, 1.5 * pi, -1.5 * pi, 1.25 * pi, 1e-3, -1e-3]),
+        _ => t.range_f64(-2.0 * pi + 1e-3, 2.0 * pi - 1e-3),
+    };
+    let cast = |x: f64| <S as num_traits::NumCast>::from(x).unwrap();
+    let angle = cast(angle_f);
+    let mut ax = [t.range_f64(-1.0, 1.0), t.range_f64(-1.0, 1.0), t.range_f64(-1.0, 1.0)];
+    if t.chance(40) {
+        ax = [[1.0, 0.0, 0.0], [0.0, -1.0, 0.0], [0.0, 0.0, 1.0]][t.below(3)];
+    }
+    if ax.iter().map(|x| x * x).sum::<f64>() < 1e-3 {
+        ax = [0.6, 0.0, -0.8];
+    }
+    let axis = [cast(ax[0]), cast(ax[1]), cast(ax[2])];
+    if angle_f.abs() > pi { cx.label("beyond-half-turn") } else { cx.label("within-half-turn") }
+    cx.set_nontrivial(angle_f.abs() > 1e-2);
+    sample!(cx, "{} angle={:?} axis={:?}", S::NAME, angle, axis);
+    let q = Quaternion::<S>::rotation_3d(angle, vk::v3(&axis));
+    let (a2, ax2) = q.into_angle_axis();
+    let ax2a = vk::a3(&ax2);
+    // the axis is xyz / sqrt(1 - w^2): cancellation in 1 - w^2 = sin^2(angle/2) amplifies rounding by 1/sin^2(angle/2)
+    let sh2 = (angle_f / 2.0).sin().powi(2);
+    if sh2 > 1e4 * S::eps() {
+        check_close!(cx, S, rf::dot(&ax2a, &ax2a), S::one(), 1.0, 1024.0 / sh2, "extracted axis is unit");
+    } else {
+        // (numerically) the identity rotation: the axis is not determined by the quaternion to working precision;
+        // only "same rotation" below is asserted there
+        cx.label("near-identity");
+    }
+    let slack = cast(64.0 * S::eps());
+    check!(cx, a2 >= -slack && a2 <= cast(2.0 * pi) + slack, "extracted angle {:?} not in [0, 2pi]", a2);
+    // same rotation: compare the rotation matrices. acos near +-1 loses half the digits: tolerance sqrt(eps)-scaled
+    let q2 = Quaternion::<S>::rotation_3d(a2, ax2);
+    let m1 = cm::Mat3::<S>::from(q).to_arr();
+    let m2 = cm::Mat3::<S>::from(q2).to_arr();
+    let tol_k = 64.0 / S::eps().sqrt();
+    check_mat!(cx, S, m2, m1, 1.0, tol_k, "rotation_3d(into_angle_axis(q)) is the same rotation as q");
+    // and q2 = +-q
+    let (a, b) = (qa(q), qa(q2));
+    let same = (0..4).all(|i| (a[i].f() - b[i].f()).abs() <= tol_k * S::eps());
+    let opp = (0..4).all(|i| (a[i].f() + b[i].f()).abs() <= tol_k * S::eps());
+    check!(cx, same || opp, "rebuilt quaternion {:?} is neither q nor -q ({:?})", b, a);
+    Ok(())
+}
+
+/// Field-exact conversions on opaque terms.
+fn conversions(t: &mut Tape, cx: &mut Cx) -> CaseResult {
+    let b = t.below(100) as u32;
+    let (x, y, z, w) = (Sym::atom(b + 1), Sym::atom(b + 2), Sym::atom(b + 3), Sym::atom(b + 4));
+    cx.nontrivial();
+    sample!(cx, "Sym x={:?} y={:?} z={:?} w={:?}", x, y, z, w);
+    let q = Quaternion::from_xyzw(x, y, z, w);
+    check_eq!(cx, (q.x, q.y, q.z, q.w), (x, y, z, w), "from_xyzw");
+    let q2 = Quaternion::from_scalar_and_vec3((w, Vec3 { x, y, z }));
+    check_eq!(cx, (q2.x, q2.y, q2.z, q2.w), (x, y, z, w), "from_scalar_and_vec3");
+    let (s, v) = q.into_scalar_and_vec3();
+    check_eq!(cx, (s, v.x, v.y, v.z), (w, x, y, z), "into_scalar_and_vec3");
+    let v4: Vec4<Sym> = q.into_vec4();
+    check_eq!(cx, (v4.x, v4.y, v4.z, v4.w), (x, y, z, w), "into_vec4");
+    let v4b: Vec4<Sym> = Vec4::from(q);
+    check_eq!(cx, (v4b.x, v4b.y, v4b.z, v4b.w), (x, y, z, w), "Vec4::from(q)");
+    let q3 = Quaternion::from_vec4(Vec4 { x, y, z, w });
+    check_eq!(cx, (q3.x, q3.y, q3.z, q3.w), (x, y, z, w), "from_vec4");
+    let q4 = Quaternion::from(Vec4 { x, y, z, w });
+    check_eq!(cx, (q4.x, q4.y, q4.z, q4.w), (x, y, z, w), "Quaternion::from(Vec4)");
+    let v3: Vec3<Sym> = q.into_vec3();
+    check_eq!(cx, (v3.x, v3.y, v3.z), (x, y, z), "into_vec3");
+    let v3b: Vec3<Sym> = Vec3::from(q);
+    check_eq!(cx, (v3b.x, v3b.y, v3b.z), (x, y, z), "Vec3::from(q)");
+    let c = q.conjugate();
+    check_eq!(cx, (c.x, c.y, c.z, c.w), (-x, -y, -z, w), "conjugate on terms");
+    let id = Quaternion::<Sym>::identity();
+    check_eq!(cx, (id.x, id.y, id.z, id.w), (Sym::zero(), Sym::zero(), Sym::zero(), Sym::one()), "identity on terms");
+    Ok(())
+}
+
 pub fn property() -> Property {
-    Property { id: "C05", rule: "", assumptions: &[], checks: Vec::new(), max_discard_frac: 0.2 }
+    let mut checks = Vec::new();
+    macro_rules! tape {
+        ($name:expr, $about:expr, $len:expr, $q:expr, $th:expr, $f:expr) => {
+            checks.push(Check { name: $name, about: $about, kind: Kind::Tape { len: $len, quick: $q, thorough: $th, f: $f } });
+        };
+    }
+    let a = "Hamilton product vs the i,j,k table; identity neutral; associativity; norm multiplicative; conjugation reverses products; two-sided inverse; + - neg, scalar mul/div, dot, magnitude, normalized, Default/zero";
+    tape!("algebra-rat", a, 64, 40_000, 1_000_000, algebra::<Rat>);
+    tape!("algebra-f64", a, 128, 20_000, 500_000, algebra::<f64>);
+    tape!("algebra-f32", a, 128, 10_000, 250_000, algebra::<f32>);
+    let b = "unit quaternion (rational point of S^3) applied to Vec3/Vec4 = q v q* (reference) = Mat3/Mat4::from(q) (both layouts); w bit-identical; (pq)v = p(qv); matrix is a proper rotation";
+    tape!("action-rat", b, 64, 30_000, 1_000_000, action::<Rat>);
+    tape!("action-f64", b, 96, 20_000, 500_000, action::<f64>);
+    let c = "rotation_from_to_3d (quaternion, Mat3, Mat4, both layouts): unit, maps `from` onto a positive multiple of `to` for generic, parallel and exactly antiparallel pairs (every 180-degree sub-branch)";
+    tape!("from-to-rat", c, 64, 40_000, 1_000_000, from_to::<Rat>);
+    tape!("from-to-f64", c, 96, 40_000, 1_000_000, from_to::<f64>);
+    tape!("from-to-f32", c, 96, 10_000, 250_000, from_to::<f32>);
+    let d = "into_angle_axis for angles in (-2pi, 2pi): unit axis, angle in [0, 2pi], rebuilding the rotation from them gives the same rotation (+-q)";
+    tape!("angle-axis-f64", d, 48, 40_000, 1_000_000, angle_axis::<f64>);
+    tape!("angle-axis-f32", d, 48, 20_000, 500_000, angle_axis::<f32>);
+    tape!("conversions-sym", "conversions to/from Vec4, Vec3, (scalar, vector), from_xyzw, conjugate, identity are field-exact on opaque terms", 4, 2_000, 20_000, conversions);
+    Property {
+        id: "C05",
+        rule: "arbitrary quaternions with small rational/float components; unit quaternions from the rational parametrisation of S^3; direction pairs by class: exactly antiparallel (12 base vectors covering |x|>|z|, |x|<|z|, |x|=|z|, axis-aligned, scaled by independent rationals), parallel, generic constructed so that every square root is rational, random float pairs incl. nearly antiparallel; angles in (-2pi,2pi); non-trivial = all four components non-zero and pq != qp (algebra/action), from has >= 2 non-zero components (from-to), |angle| > 0.01 (angle-axis); distinct = distinct consumed tape prefix",
+        assumptions: &[
+            "rustc and the proptest runner/shrinker are trusted",
+            "oracle: Hamilton product expanded over the i,j,k multiplication table (vkit::refmath::hamilton), rotation = q (0,v) q*",
+            "from-to in floats: tolerance widened by the conditioning factor |from||to| / |from/|from| + to/|to|| for nearly antiparallel pairs",
+            "angle-axis: acos near +-1 loses half the digits, so the rebuilt rotation is compared at 64*sqrt(eps)",
+        ],
+        checks,
+        max_discard_frac: 0.2,
+    }
 }
